@@ -1,5 +1,7 @@
 import CfrVerif.Proofs.CliSem
 import CfrVerif.Proofs.CliLemmas
+import CfrVerif.Proofs.CliGambit
+import CfrVerif.Proofs.CliDemo
 /-!
 # C15 — the output of the command-line program is faithful to the game in the input file
 
@@ -32,7 +34,16 @@ theorem cli_strategies_valid (env : Env) (sched : Sched ℝ) (hs : sched.Fair) (
     (h : cliMain env sched draw numName o fmt kind p = .ok out) :
     ∃ g sum, loadGame numName fmt kind p = .ok (g, sum) ∧
       PrintedValid g.p1 g.s1 out.playerOneStrategy ∧ PrintedValid g.p2 g.s2 out.playerTwoStrategy := by
-  sorry
+  have _ := hshape
+  obtain ⟨g, sum, one, two, hl, hg, ⟨hs1, hf1⟩, ⟨hs2, hf2⟩, ha⟩ := CliP.cliMain_printed hs h
+  obtain ⟨s1, s2, e1, e2, rfl⟩ := CliP.assemble_ok ha
+  have v1 := CliP.asNamed_valid g.p1 g.s1 one hg.tables1 hf1 hs1
+  have v2 := CliP.asNamed_valid g.p2 g.s2 two hg.tables2 hf2 hs2
+  rw [CliP.strategyOfNamed_asNamed _ _ _ v1.2.1] at e1
+  rw [CliP.strategyOfNamed_asNamed _ _ _ v2.2.1] at e2
+  cases e1
+  cases e2
+  exact ⟨g, sum, hl, v1, v2⟩
 
 /-- **printed numbers are the evaluation of the printed profile**: there is a valid profile `σ`
 of the game that was read whose named view (zero-probability actions dropped) is what is printed
@@ -51,14 +62,41 @@ theorem cli_numbers_are_evaluation (env : Env) (sched : Sched ℝ) (hs : sched.F
       out.playerTwoRegret = (getInfo g σ).regretTwo ∧
       out.regret = max out.playerOneRegret out.playerTwoRegret ∧
       out.playerOneUtility + out.playerTwoUtility = 2 * sum := by
-  sorry
+  have _ := hshape
+  obtain ⟨g, sum, one, two, hl, hg, ⟨hs1, hf1⟩, ⟨hs2, hf2⟩, ha⟩ := CliP.cliMain_printed hs h
+  obtain ⟨s1, s2, e1, e2, rfl⟩ := CliP.assemble_ok ha
+  refine ⟨g, sum, fun p => if p then one else two, hl, hg, ?_, e1, e2, ?_, ?_, ?_, ?_, ?_, ?_⟩
+  · intro me
+    cases me
+    · exact ⟨hs2, hf2⟩
+    · exact ⟨hs1, hf1⟩
+  · simp [StrategiesInfo.playerUtility]
+  · simp [StrategiesInfo.playerUtility]
+  · simp [StrategiesInfo.playerRegret]
+  · simp [StrategiesInfo.playerRegret]
+  · simp [StrategiesInfo.regret, StrategiesInfo.playerRegret, fmax_eq_max]
+  · simp only [StrategiesInfo.playerUtility, if_true, Bool.false_eq_true, if_false]
+    ring
 
 /-- **the game exactly as written in the file**: for a Gambit file that is exactly constant-sum
 `K`, the tree handed to `from_root` pays, under every behavioural profile `ρ` of that tree, player
 one's expected own file payoff minus `K/2`; and player two's expected own file payoff is `K` minus
 player one's.  Hence (with `cli_numbers_are_evaluation` and `compile_expected`) the printed
-utilities are the players' expected own payoffs and add up to `K`. -/
+utilities are the players' expected own payoffs and add up to `K`.
+
+**Added hypothesis `hfile : f.root.FileOK`** (`Proofs/CliLemmas.lean`): no terminal carries the null
+outcome `0`, and the probabilities of no chance node add up to zero.  Both are guaranteed by
+`gambit_parser`'s `validate` (`NullOutcomePayoffs`; `ChanceNotDistribution`: they add up to one) but
+are not visible in the AST, and without either the statement is false:
+* `⟨2, .chance 1 [] [] [] 0 none⟩` (a chance node without children; `probs.sum = 0`) converts with
+  `sum = 0` and no terminal, so it is exactly constant-sum `K` for every `K`, e.g. `K = 2 ≠ 2 * sum`;
+  likewise `.chance 1 [0, 1] [1, -1] [.term 1 [1, 1], .term 1 [1, 1]] 0 none` (total weight `0`,
+  every expectation is `0`, `K = 2`);
+* `⟨2, .term 0 [1, 1]⟩` : the conversion reads the payoffs `(1, 1)` stored under the outcome
+  number `0` (`sum = 1`, converted payoff `0`), whereas `efgEV` gives the null outcome no payoff
+  (`efgEV … true = 0 ≠ 0 + K / 2`). -/
 theorem gambit_file_semantics (numName : Nat → Nat) (f : EfgFile ℝ) (hshape : f.root.ShapeOK)
+    (hfile : f.root.FileOK)
     (t : Tables ℝ) (n1 n2 : List (Nat × Nat)) (raw : Raw ℝ) (sum K : ℝ)
     (ht : Tables.run ({} : Tables ℝ) f.root.visits = .ok t)
     (h1 : t.one.resolve numName = .ok n1) (h2 : t.two.resolve numName = .ok n2)
@@ -68,7 +106,76 @@ theorem gambit_file_semantics (numName : Nat → Nat) (f : EfgFile ℝ) (hshape 
     sum = K / 2 ∧
     rawEV ρ raw = efgEV t.outcomes (fun o => if o then n1 else n2) ρ true f.root 0 - K / 2 ∧
     efgEV t.outcomes (fun o => if o then n1 else n2) ρ false f.root 0
-      = K - efgEV t.outcomes (fun o => if o then n1 else n2) ρ true f.root 0 := by
-  sorry
+      = K - efgEV t.outcomes (fun o => if o then n1 else n2) ρ true f.root 0 :=
+  CliP.gambit_semantics numName f hshape hfile t n1 n2 raw sum K ht h1 h2 hraw hK ρ hρ
+
+/-! ## non-vacuity -/
+
+/-- the one-node JSON game `{"terminal": x}` loads -/
+theorem C15.load_json_terminal (numName : Nat → Nat) (x : ℝ) :
+    loadGame numName .json .stdin ⟨some (.terminal x), none⟩
+      = .ok (⟨[], [], [], [], [], .term x⟩, 0) := by
+  simp [loadGame, jsonFromReader, jsonFromState, JState.toRaw, fromRootCli, fromRoot, compile]
+
+/-- the crate's own test file `EFG 2 R "" { "" "" } t "" 2 { 1 1 }` loads through the `.efg` route
+with offset `1` -/
+theorem C15.load_gambit_terminal :
+    loadGame id .auto .dotEfg ⟨none, some ⟨2, .term 2 [1, 1]⟩⟩
+      = .ok (⟨[], [], [], [], [], .term (0 : ℝ)⟩, 1) := by
+  simp [loadGame, gambitFromReader, gambitFromAst, gambitRaw, getGlobalInfo, Efg.visits, Tables.run,
+    Tables.step, Tables.insertOutcome, toPair, PNames.resolve, hasDupName, Efg.leaves, assocFind,
+    addPays, pairSum, notConstantSum, constantSum, minOf, maxOf, Efg.toRaw, fromRootCli, fromRoot,
+    compile]
+
+/-- the hypothesis `cliMain … = .ok out` of the first two theorems is satisfiable: with one thread
+the program prints a result on these inputs for every method, preset, budget, threshold, clip
+threshold and draw oracle (`one_thread_never_errors`; the output assertion never fires,
+`CliP.cliMain_succeeds`) -/
+example (env : Env) (sched : Sched ℝ) (hs : sched.Fair) (draw : DrawFn ℝ) (clip : ℝ)
+    (thr : Option (Ext ℝ)) (T : Nat) (m : Method) (d : Discount) (x : ℝ) :
+    (∃ out, cliMain env sched draw id ⟨clip, thr, T, 1, m, d⟩ .json .stdin
+      ⟨some (.terminal x), none⟩ = .ok out) ∧
+    (∃ out, cliMain env sched draw id ⟨clip, thr, T, 1, m, d⟩ .auto .dotEfg
+      ⟨none, some ⟨2, .term 2 [1, 1]⟩⟩ = .ok out) := by
+  constructor
+  · obtain ⟨sol, hsol⟩ := one_thread_never_errors env sched ⟨[], [], [], [], [], .term x⟩ m
+      (CliOpts.iters ⟨clip, thr, T, 1, m, d⟩) thr (some d.intoParams) draw
+    exact CliP.cliMain_succeeds hs (C15.load_json_terminal id x) hsol
+  · obtain ⟨sol, hsol⟩ := one_thread_never_errors env sched ⟨[], [], [], [], [], .term 0⟩ m
+      (CliOpts.iters ⟨clip, thr, T, 1, m, d⟩) thr (some d.intoParams) draw
+    exact CliP.cliMain_succeeds hs C15.load_gambit_terminal hsol
+
+example : Parsed.ShapeOK (⟨some (.terminal 1), some ⟨2, .term 2 [1, 1]⟩⟩ : Parsed ℝ) := by
+  constructor
+  · intro s hs
+    cases hs
+    simp [JState.ShapeOK]
+  · intro f hf
+    cases hf
+    simp [Efg.ShapeOK]
+
+/-- the hypotheses of `gambit_file_semantics` hold (over `ℝ`) for the crate's test file, constant
+sum `K = 2`; for a file with an interior outcome, unsorted actions and three infosets see
+`Proofs/CliDemo.lean` (over `ℚ`, by evaluation, through `CliP.gambit_semantics`, the same theorem at
+every ordered field), where the two facts of `Efg.FileOK` are also shown to be needed -/
+example (ρ : LProfile ℝ) :
+    (1 : ℝ) = 2 / 2 ∧
+    rawEV ρ (.term (0 : ℝ))
+      = efgEV [(2, ((1 : ℝ), (1 : ℝ)))] (fun o => if o then [] else []) ρ true (.term 2 [1, 1]) 0
+        - 2 / 2 ∧
+    efgEV [(2, ((1 : ℝ), (1 : ℝ)))] (fun o => if o then [] else []) ρ false (.term 2 [1, 1]) 0
+      = 2 - efgEV [(2, ((1 : ℝ), (1 : ℝ)))] (fun o => if o then [] else []) ρ true
+          (.term 2 [1, 1]) 0 := by
+  refine gambit_file_semantics id ⟨2, .term 2 [1, 1]⟩ (by simp [Efg.ShapeOK]) (by simp [Efg.FileOK])
+    ⟨{}, {}, [(2, (1, 1))]⟩ [] [] (.term 0) 1 2 rfl rfl rfl ?_ ?_ ρ (by simp [LValidOn])
+  · simp [gambitRaw, getGlobalInfo, Efg.visits, Tables.run,
+      Tables.step, Tables.insertOutcome, toPair, PNames.resolve, hasDupName, Efg.leaves, assocFind,
+      addPays, pairSum, notConstantSum, constantSum, minOf, maxOf, Efg.toRaw]
+  · intro ls hls
+    simp only [Efg.leaves, assocFind, List.find?_cons, beq_self_eq_true, Option.map_some,
+      isFinite_exact, if_true, Except.ok.injEq] at hls
+    subst hls
+    simp [addPays]
+    norm_num
 
 end Cfr
